@@ -22,6 +22,7 @@ import (
 	"github.com/uber/kraken/lib/torrent/networkevent"
 	"github.com/uber/kraken/lib/torrent/scheduler"
 	"github.com/uber/kraken/lib/torrent/scheduler/connstate"
+	"github.com/uber/kraken/utils/bandwidth"
 
 	"kverif/cluster"
 	"kverif/kit"
@@ -44,11 +45,24 @@ func body(s *simrt.Sim, tier string) {
 	sc.ConnTTI = time.Duration(4+tp.Draw(20)) * time.Second
 	sc.EmitStatsInterval = time.Minute
 	sc.ConnState = connstate.Config{MaxOpenConnectionsPerTorrent: 2 + tp.Draw(3), BlacklistDuration: time.Duration(6+tp.Draw(6)) * time.Second}
-	p := cluster.Params{PieceLength: int64(1024 << tp.Draw(3)), Sched: sc, TorrentLog: true,
+	pieceLen := int64(1024 << tp.Draw(3))
+	p := cluster.Params{PieceLength: pieceLen, Sched: sc, TorrentLog: true,
 		AnnounceInterval: time.Duration(1+tp.Draw(2)) * time.Second, PeerHandoutLimit: 3 + tp.Draw(3)}
 	c := cluster.New(s, p)
 	wl := wire.Attach(s, c.NW) // piece payloads as the sender writes them
 	c.StartOrigins(1)
+	if v := s.Tape.Variant; v%3 == 1 {
+		// egress bandwidth limit for the agents (the scheduler's own limiter,
+		// 256-byte tokens; the origin stays unlimited so that the first download
+		// is not starved): 1-3 pieces per second, so that payloads queue behind
+		// each other at the serving end and a piece goes onto the wire well
+		// after it was requested
+		const token = 8 * 256
+		perPiece := uint64(pieceLen / 256)
+		c.P.Sched.Conn.Bandwidth = bandwidth.Config{Enable: true, TokenSize: token,
+			EgressBitsPerSec: token * perPiece * (1 + (v/3)%3), IngressBitsPerSec: token * perPiece * 1000}
+		s.Probe("egress_limited")
+	}
 	c.StartTracker()
 	nPieces := 2 + tp.Draw(14)
 	size := int(p.PieceLength)*nPieces - tp.Draw(int(p.PieceLength))
